@@ -106,6 +106,12 @@ Definition expected_suite (fn : N) (ins : list bytes) (ns : list N) : option (li
   | 70, [ms; cr; sr; cid; payload], [id; cl; e; s; t; v] => protect12 id (nb cl) ms cr sr cid payload e s t v
   | 71, [ms; cr; sr; cid; payload], [id; cl; e; s; t; v] => protect12 id (nb cl) ms cr sr cid payload e s t v
   | 73, [ms; cr; sr; cid; payload; eiv], [id; cl; e; s; t; v] => live_record12 id (nb cl) ms cr sr cid payload eiv e s t v
+  (* 80..82: receive direction (records a conforming peer may send, fed to the real Decrypt/Open) *)
+  | 80, [ms; cr; sr; cid; payload; explicit], [id; cl; e; s; t; v; padlen] =>
+      receive12 id (nb cl) ms cr sr cid payload explicit padlen e s t v
+  | 81, [secret; cid; plaintext; mask], [id; el; seq; ct; tag; sb; lb; zeros] =>
+      receive13 id secret cid plaintext mask (nb sb) (nb lb) el seq ct tag zeros
+  | 82, _, _ => Some [[0]]   (* negative control: a record with one bit changed must be rejected *)
   | _, _, _ => None
   end.
 
